@@ -46,7 +46,7 @@ func runC19(r *rt.Run) {
 	r.Bounds["segments"] = len(L) * len(L)
 	r.Bounds["probe_points"] = len(H)
 	r.Bounds["transforms"] = len(c19Xfs)
-	r.Rule = "all ordered endpoint pairs over the lattice (zero-length included) x all half-step points (raycast/contains-point/collinear) and x all segments (intersects both orders, contains), under each float transform; long anchored segments (span 32/64, also shifted to +-2^20) x every lattice point on or next to them; near-miss/near-hit pairs up to 2^20 in 8 orientations; near-parallel family: directions M*(P,Q)+e1 and M*(P,Q)+e2 (12 primitive (P,Q), lengths M up to 2^20 (segments up to 2^21 long), e1,e2 over [-2,2]^2) crossing at / ending at / starting next to a common point with every offset in [-1,1]^2, both operand orders; ulp grid: x = +-(2^20-1) + k 2^-33, y = 0..6, every (segment, point) triple over 7x7 and every segment pair over 4x4; non-trivial = probe inside the segment's y-range (point cases) / bounding boxes meet (segment cases)"
+	r.Rule = "all ordered endpoint pairs over the lattice (zero-length included) x all half-step points (raycast/contains-point/collinear) and x all segments (intersects both orders, contains), under each float transform; long anchored segments (span 32/64, also shifted to +-2^20) x every lattice point on or next to them; near-miss/near-hit pairs up to 2^20 in 8 orientations; near-parallel family: directions M*(P,Q)+e1 and M*(P,Q)+e2 (12 primitive (P,Q), lengths M up to 2^20 (segments up to 2^21 long), e1,e2 over [-2,2]^2) crossing at / ending at / starting next to a common point with every offset in [-1,1]^2, both operand orders; probes and endpoints written with negative zero; ulp grid: x = +-(2^20-1) + k 2^-33, y = 0..6, every (segment, point) triple over 7x7 and every segment pair over 4x4; non-trivial = probe inside the segment's y-range (point cases) / bounding boxes meet (segment cases)"
 	r.Assume = []string{"coordinates are dyadic with magnitude <= 2^20 (the property's own domain)", "exact oracle: integer orientation predicates (verif/mc/exact)"}
 	type seg struct{ a, b exact.P }
 	segs := make([]seg, 0, len(L)*len(L))
@@ -145,10 +145,14 @@ func runC19(r *rt.Run) {
 	c19Long(r)
 	c19NearParallel(r)
 	c19UlpGrid(r)
+	c19NegZero(r)
 	r.Sample(map[string]any{"segment_pair": []any{segG(geometry.Point{X: 0, Y: 1}, geometry.Point{X: 0, Y: 2}), segG(geometry.Point{X: 0, Y: 0}, geometry.Point{X: 0, Y: 3})}, "note": "nested collinear pair (needs 4 collinear lattice points)"})
 }
 
 func evalC19(c *rt.Case) (bool, string, string, error) {
+	if c.Kind == "negzero" {
+		return evalC19NegZero(c)
+	}
 	if c.Kind == "ulp-grid" {
 		return evalC19UlpGrid(c)
 	}
